@@ -299,15 +299,15 @@ func runC10(c *Ctx) {
 
 	// ---- O2: unguarded dereference of a queue looked up by id
 	justified := map[string]string{
-		"(*pkg/scheduler/actions/reclaim.reclaimAction).attemptToReclaimForSpecificJob|p1.ClusterInfo.Queues": "the job was popped from JobsOrderByQueues; InitializeWithJobs admits only jobs whose queue exists",
-		"pkg/scheduler/actions/allocate.attemptToAllocateJob|p0.ClusterInfo.Queues":                           "the job was popped from JobsOrderByQueues; InitializeWithJobs admits only jobs whose queue exists",
-		"(*pkg/scheduler/actions/utils.JobsOrderByQueues).PushJob|p0.ssn.ClusterInfo.Queues":                  "callers push jobs that passed InitializeWithJobs' queue-exists filter or were popped from this structure (re-push, scenario builder clones)",
-		"pkg/scheduler/actions/utils.GetMessageOfEviction|p0.ClusterInfo.Queues":                               "the preemptor was popped from JobsOrderByQueues and the victim came from a victims queue (both filtered by InitializeWithJobs); parent lookups are nil-checked before use",
-		"(*pkg/scheduler/plugins/proportion.proportionPlugin).getQueueAllocatedResourceFn|p0.queues":          "pp.queues has an entry for every key of ssn.ClusterInfo.Queues; callers pass elements of that map (nil parents are filtered by the caller)",
-		"(*pkg/scheduler/plugins/proportion.proportionPlugin).getQueueDeservedResourcesFn|p0.queues":          "pp.queues has an entry for every key of ssn.ClusterInfo.Queues; callers pass elements of that map",
-		"(*pkg/scheduler/plugins/proportion.proportionPlugin).getQueueFairShareFn|p0.queues":                  "pp.queues has an entry for every key of ssn.ClusterInfo.Queues; callers pass elements of that map",
-		"(*pkg/scheduler/plugins/proportion/reclaimable.Reclaimable).CanReclaimResources|p1":                   "the reclaimer was popped from JobsOrderByQueues: its queue exists in ClusterInfo.Queues and therefore in the attribute map",
-		"(*pkg/scheduler/plugins/proportion/reclaimable.Reclaimable).reclaimResourcesFromReclaimees|p1":        "the key is the UID of a queue returned by getLeveledQueues, i.e. of an element of the same map",
+		"(*pkg/scheduler/actions/reclaim.reclaimAction).attemptToReclaimForSpecificJob|p1.ClusterInfo.Queues":   "the job was popped from JobsOrderByQueues; InitializeWithJobs admits only jobs whose queue exists",
+		"pkg/scheduler/actions/allocate.attemptToAllocateJob|p0.ClusterInfo.Queues":                             "the job was popped from JobsOrderByQueues; InitializeWithJobs admits only jobs whose queue exists",
+		"(*pkg/scheduler/actions/utils.JobsOrderByQueues).PushJob|p0.ssn.ClusterInfo.Queues":                    "callers push jobs that passed InitializeWithJobs' queue-exists filter or were popped from this structure (re-push, scenario builder clones)",
+		"pkg/scheduler/actions/utils.GetMessageOfEviction|p0.ClusterInfo.Queues":                                "the preemptor was popped from JobsOrderByQueues and the victim came from a victims queue (both filtered by InitializeWithJobs); parent lookups are nil-checked before use",
+		"(*pkg/scheduler/plugins/proportion.proportionPlugin).getQueueAllocatedResourceFn|p0.queues":            "pp.queues has an entry for every key of ssn.ClusterInfo.Queues; callers pass elements of that map (nil parents are filtered by the caller)",
+		"(*pkg/scheduler/plugins/proportion.proportionPlugin).getQueueDeservedResourcesFn|p0.queues":            "pp.queues has an entry for every key of ssn.ClusterInfo.Queues; callers pass elements of that map",
+		"(*pkg/scheduler/plugins/proportion.proportionPlugin).getQueueFairShareFn|p0.queues":                    "pp.queues has an entry for every key of ssn.ClusterInfo.Queues; callers pass elements of that map",
+		"(*pkg/scheduler/plugins/proportion/reclaimable.Reclaimable).CanReclaimResources|p1":                    "the reclaimer was popped from JobsOrderByQueues: its queue exists in ClusterInfo.Queues and therefore in the attribute map",
+		"(*pkg/scheduler/plugins/proportion/reclaimable.Reclaimable).reclaimResourcesFromReclaimees|p1":         "the key is the UID of a queue returned by getLeveledQueues, i.e. of an element of the same map",
 		"(*pkg/scheduler/plugins/proportion/reclaimable.Reclaimable).reclaimingQueuesRemainWithinBoundaries|p1": "sibling ids are keys of remainingResourcesMap, which are UIDs of elements of the same map",
 	}
 	used := map[string]bool{}
